@@ -174,7 +174,8 @@ func genStmts() string {
 			{"threshold/threshold.go", "Scheme.initializeDKG"}, {"threshold/threshold.go", "Scheme.initializeThresholdSigning"}}},
 		{"orch", []fref{{"threshold/threshold.go", "Scheme.KeyGen"}, {"threshold/threshold.go", "Scheme.runDKG"}, {"threshold/threshold.go", "Scheme.Sign"},
 			{"threshold/threshold.go", "Scheme.prepareSigning"}, {"threshold/threshold.go", "Scheme.initializeHandlers"}, {"threshold/threshold.go", "Scheme.initializeSyncForSigning"},
-			{"threshold/threshold.go", "Scheme.registerWhileActive"}, {"threshold/threshold.go", "Scheme.ensureDKGNotRunning"}, {"threshold/threshold.go", "Scheme.runSigningProtocol"}}},
+			{"threshold/threshold.go", "Scheme.registerWhileActive"}, {"threshold/threshold.go", "Scheme.ensureDKGNotRunning"}, {"threshold/threshold.go", "Scheme.runSigningProtocol"},
+			{"threshold/threshold.go", "Scheme.HandleMessage"}, {"threshold/threshold.go", "Scheme.handleSync"}, {"threshold/threshold.go", "Scheme.initializeDKG"}, {"threshold/threshold.go", "Scheme.initializeThresholdSigning"}}},
 		{"auth", []fref{{"net/net.go", "handleConn"}, {"net/net.go", "authenticateConnection"}, {"net/net.go", "sha256Digest"},
 			{"net/net.go", "extractTLSBinding"}, {"net/net.go", "Handshake.Read"}, {"net/net.go", "Handshake.Write"}, {"net/net.go", "Handshake.Bytes"},
 			{"net/net.go", "ServiceConnections"}}},
